@@ -38,7 +38,10 @@ def build_pkg(ctx, schema_name, schema_files, config_name, must=True):
     vh = os.path.join(ctx.scratch, out_rel, "vh")
     os.makedirs(vh, exist_ok=True)
     has_bytes = os.path.isdir(os.path.join(ctx.scratch, out_rel, "factory_bytes"))
+    has_tl2 = bool(cfg.get("tl2", "*"))
     for t in sorted(glob.glob(os.path.join(core.VERIF, "harness", "codec", "*.go.tmpl"))):
+        if os.path.basename(t) == ("tl2fn_stub.go.tmpl" if has_tl2 else "tl2fn.go.tmpl"):
+            continue
         src = open(t).read().replace("IMPORT_BASE", imp)
         if has_bytes:
             src = src.replace("//BYTES ", "")
